@@ -97,6 +97,9 @@ class Obj:
         fb = object.__getattribute__(self, '__dict__').get('_fallback')
         if fb is not None and not name.startswith('__'):
             v = fb(self, name)
+            if type(v).__name__ == '_FieldDefault':
+                f[name] = v.value              # an undeclared instance field: the real constructor's literal default
+                return v.value
             if v is not None:
                 f[name] = v
                 return v
